@@ -213,7 +213,7 @@ Definition to_int32 (x : Z) : Z :=
   let y := x mod 4294967296 in if y <? 2147483648 then y else y - 4294967296.
 
 Definition lblake2b (msg : list Z) (digln : Z) (key : list Z) : lres :=
-  let digln := to_int32 digln in
+  let digln := if DIGLN_IS_C_INT then to_int32 digln else digln in   (* `int digln = luaL_optinteger(...)` truncates *)
   if MAXKEY_C <? Z.of_nat (length key) then LErrKeySize
   else if (digln <? MINDIG_C) || (MAXDIG_C <? digln) then LErrDigestSize
   else match blake2b_impl digln key msg with Some d => LOk d | None => LUndefined end.
@@ -273,7 +273,7 @@ Definition base58_encode (b58sz : Z) (bin : list Z) : lres :=
     let digits := strip_zeros (rev d) in                (* for (j = 0; j < size && !buf[j]; ++j); *)
     let outlen := Z.of_nat zcount + Z.of_nat (length digits) in   (* zcount + size - j *)
     if b58sz <=? outlen then LErrEncode
-    else LOk (repeat 49 zcount ++ map (fun x => nth (Z.to_nat x) B58_ALPHABET_C 0) digits)
+    else LOk (repeat B58_PAD_ENC_C zcount ++ map (fun x => nth (Z.to_nat x) B58_ALPHABET_C 0) digits)
   end.
 
 (* lbase58_encode *)
@@ -302,7 +302,7 @@ Fixpoint b58_dec_loop (s : list Z) (l : list Z) : option (list Z) :=
   match s with
   | [] => Some l
   | ch :: r =>
-    if negb (Z.land ch 128 =? 0) then None                        (* high bit set *)
+    if negb (Z.land ch B58_HIGHBIT_C =? 0) then None                        (* high bit set *)
     else let dg := nth (Z.to_nat ch) B58_MAP_C (-1) in
     if dg =? -1 then None                                         (* invalid base58 digit *)
     else let '(l', c) := b58_mul_add l (dg mod 4294967296) in     (* c = (unsigned)map[...] *)
@@ -324,7 +324,7 @@ Fixpoint lead_char (x : Z) (l : list Z) : nat :=
    entry (BASE58_DECODE_MAXLEN from lbase58_decode); returns the bin buffer and the new *binszp *)
 Definition base58_decode (binsz : Z) (b58 : list Z) : option (list Z * Z) :=
   let outisz := Z.to_nat (B58_DECODE_MAXLEN / 4) in
-  let zerocount := lead_char 49 b58 in
+  let zerocount := lead_char B58_PAD_DEC_C b58 in
   match b58_dec_loop (skipn zerocount b58) (repeat 0 outisz) with
   | None => None
   | Some l =>
@@ -360,3 +360,15 @@ Definition stringer_hash (s : list Z) (len : Z) (key : list Z) : lres :=
 
 (* stringer.hash(s): `len = len or 20`, no key *)
 Definition stringer_hash_default (s : list Z) : lres := stringer_hash s STRINGER_DEFAULT_LEN [].
+
+(* hasher.blake2b(m): digln defaults to luaL_optinteger's default, no key *)
+Definition lblake2b_default (msg : list Z) : lres := lblake2b msg DEFAULT_DIG_C [].
+
+(* incremental use with a given counter (harness/C20/stream.c): blake2b_init; input_offset := {t0, t1};
+   one blake2b_update per chunk; blake2b_final *)
+Definition blake2b_stream (hash_size : Z) (key : list Z) (t0 t1 : Z) (chunks : list (list Z)) : option (list Z) :=
+  let c := blake2b_init hash_size key in
+  let c := mkctx (c_hash c) t0 t1 (c_input c) (c_idx c) (c_hsize c) (c_oob c) in
+  let c := fold_left blake2b_update chunks c in
+  let '(c, out) := blake2b_final c in
+  if c_oob c then None else Some out.
